@@ -26,6 +26,8 @@ CONSTANTS
   Nil,
   MaxTerm, MaxLog,          \* bounds on terms and log length
   MaxTimer, MaxAE, MaxClient, MaxCrash, MaxHalf,   \* budgets (bounded inside Next)
+  MaxCfg,      \* membership requests that may be accepted (0 = static membership)
+  MaxRead,     \* linearizable reads that may be submitted (asynchronous ae grain)
   MaxSnap,     \* snapshots that may be armed (0 = snapshots off)
   SnapSize,    \* 1: a snapshot fits one request; 2: it takes the code's two requests (everything, then empty + Done)
   AsyncKinds,  \* subset of {"rv", "ae"} handled through `net'
@@ -43,16 +45,20 @@ VARIABLES
   elected, \* history: set of <<term, node>> that became leader
   comm,    \* history: index -> entry, first time any node's commit index covered it
   voted,   \* history: set of <<node, term, candidate>> real votes ever cast (self-votes included)
+  acked,   \* history: largest log index whose replicated operation was acknowledged to a client
   viol     \* history: names of properties observed violated at an action
 
-vars == <<ns, net, budget, elected, comm, voted, viol>>
+vars == <<ns, net, budget, elected, comm, voted, acked, viol>>
 
 -----------------------------------------------------------------------------
 Max(a, b) == IF a > b THEN a ELSE b
 Min(a, b) == IF a < b THEN a ELSE b
 
 Entry(t, k, v) == [t |-> t, k |-> k, v |-> v]
-BootEntry == Entry(1, "cfg", "boot")
+\* a configuration: index of its entry, voters, non-voting members (idx 0 = no configuration)
+Cfg(i, v, n) == [idx |-> i, v |-> v, n |-> n]
+NoCfg == Cfg(0, {}, {})
+BootEntry == Entry(1, "cfg", [v |-> InitVoters, n |-> {}])
 
 \* log = [base, bterm, ents]: ents[j] is the entry with index base + j
 LastIdx(lg)  == lg.base + Len(lg.ents)
@@ -81,8 +87,9 @@ CompactParked(s) ==
 
 
 \* static membership in this module's core; Membership.tla refines these two
-VotersOf(s)  == InitVoters
-MembersOf(s) == InitVoters
+\* the configuration in force on a node (r.configuration)
+VotersOf(s)  == s.cfg.v
+MembersOf(s) == s.cfg.v \cup s.cfg.n
 IsVoter(s, n) == n \in VotersOf(s)
 Quorum(s, count) ==
   IF "QuorumGeq" \in W THEN count * 2 >= Cardinality(VotersOf(s))     \* weakening: >= instead of >
@@ -92,6 +99,9 @@ SingleServer(s, n) == MembersOf(s) = {n} /\ IsVoter(s, n)
 InitNode ==
   [ term |-> 0, vote |-> Nil, role |-> "F",
     log |-> [base |-> 0, bterm |-> 0, ents |-> <<BootEntry>>],
+    cfg |-> Cfg(1, InitVoters, {}),                   \* r.configuration (Bootstrap)
+    ccfg |-> NoCfg,                                   \* r.committedConfiguration (nil until a configuration is applied)
+    cfut |-> 0,                                       \* index of the configuration entry an outstanding membership future waits for
     commit |-> 0,
     next |-> [p \in Node |-> 1], match |-> [p \in Node |-> 0],
     votes |-> 0, asked |-> {}, pre |-> FALSE,         \* current vote round: counter, peers asked, prevote?
@@ -102,7 +112,15 @@ InitNode ==
     snap |-> [idx |-> 0, term |-> 0],                 \* newest published snapshot (durable); its content is the operations up to idx
     arm |-> FALSE,                                    \* the state machine will ask for a snapshot after the next applied entry
     rs |-> [idx |-> 0, term |-> 0, off |-> 0],        \* partial incoming snapshot file (idx = 0: none)
-    soff |-> [p \in Node |-> 0] ]                     \* leader: read offset in the snapshot file being sent to p
+    soff |-> [p \in Node |-> 0],                     \* leader: read offset in the snapshot file being sent to p
+    \* rounds (asynchronous grain): every sendRequestVoteToPeers / sendAppendEntriesToPeers call
+    \* allocates one counter shared by the goroutines of that round
+    vr |-> 0,                                         \* vote rounds started so far
+    hbr |-> 0,                                        \* heartbeatRound: replication rounds started so far
+    cnt |-> <<>>,                                     \* round key <<kind, k>> -> responses counted (1 = the node itself)
+    reads |-> {},                                     \* pending linearizable reads [id, ridx, vround, ver, must]
+    svq |-> TRUE,                                     \* shouldVerifyQuorum
+    rvr |-> 0 ]                                       \* round started by the last read that started one
 
 -----------------------------------------------------------------------------
 (* Role changes, as in the code *)
@@ -121,11 +139,13 @@ BecomeFollower(s, t, site) ==
                                ELSE IF t # s.term \/ "ClearVoteSameTerm" \in W THEN Nil ELSE s.vote,
                       !.pend = IF ("KeepPend@" \o site) \in W \/ "PendingNotCleared" \in W THEN s.pend ELSE <<>>,
                       \* resetSnapshotFiles: a partial incoming snapshot is discarded, open readers are closed
-                      !.rs = [idx |-> 0, term |-> 0, off |-> 0], !.soff = [p \in Node |-> 0]] IN
+                      !.rs = [idx |-> 0, term |-> 0, off |-> 0], !.soff = [p \in Node |-> 0],
+                      \* new operation manager: pending reads are failed (ErrNotLeader)
+                      !.reads = {}, !.svq = TRUE, !.cfut = 0] IN
   Persist(s1, site)
 
 BecomeLeader(s, n) ==
-  [s EXCEPT !.role = "L",
+  [s EXCEPT !.role = "L", !.reads = {}, !.svq = TRUE,
             !.rs = [idx |-> 0, term |-> 0, off |-> 0], !.soff = [p \in Node |-> 0],
             !.next = [p \in Node |-> LastIdx(s.log) + 1],
             !.match = IF "MatchNotReset" \in W THEN s.match ELSE [p \in Node |-> 0],
@@ -224,13 +244,16 @@ HandleAE(s, m) ==
           c == IF m.commit > s1.commit
                  THEN (IF "FollowerCommitUnchecked" \in W THEN m.commit ELSE Min(m.commit, LastIdx(lg3)))
                  ELSE s1.commit IN
-      [s |-> [s1 EXCEPT !.log = lg3, !.commit = c],
+          \* a truncation at or below the configuration in force falls back to the committed one
+          truncated == j # 0 /\ HasIdx(lg2, m.prev + j)
+          cfg2 == IF truncated /\ m.prev + j <= s1.cfg.idx /\ "NoConfigFallback" \notin W THEN s1.ccfg ELSE s1.cfg IN
+      [s |-> [s1 EXCEPT !.log = lg3, !.commit = c, !.cfg = cfg2],
        reply |-> [term |-> s1.term, ok |-> TRUE, hint |-> 0]]
 
 \* commitLoop body: the largest index of the current term replicated on a quorum of voters
 CommitIndexOf(s, n) ==
   LET ok(i) == /\ (At(s.log, i).t = s.term \/ "CommitAnyTerm" \in W)
-               /\ Quorum(s, 1 + Cardinality({p \in VotersOf(s) \ {n} : s.match[p] >= i}))
+               /\ Quorum(s, 1 + Cardinality({p \in (IF "CommitCountsNonVoters" \in W THEN MembersOf(s) ELSE VotersOf(s)) \ {n} : s.match[p] >= i}))
       S == {i \in (s.commit + 1)..LastIdx(s.log) : HasIdx(s.log, i) /\ ok(i)} IN
   IF S = {} THEN s.commit ELSE CHOOSE i \in S : \A k \in S : k <= i
 
@@ -319,20 +342,47 @@ CommitViolationOp(c, old, new) ==
 CompletenessViolation(c, s) ==
   \E i \in DOMAIN c : i > s.log.base /\ (~HasIdx(s.log, i) \/ At(s.log, i) # c[i])
 
+CommittedThisTerm(s) ==
+  IF HasIdx(s.log, s.commit) THEN At(s.log, s.commit).t = s.term ELSE s.li.term = s.term
+
+\* the read-only loop serves every verified read whose read index is applied (eagerly: it is
+\* woken whenever a round reaches its quorum and whenever the apply loop has applied something)
+Servable(s) ==
+  IF s.role = "L" /\ CommittedThisTerm(s) THEN {r \in s.reads : r.ver /\ r.ridx <= s.commit} ELSE {}
+
 \* futures whose index the node has applied are resolved and forgotten (an index applied as a
 \* no-op or configuration entry leaves its future dangling in the code as well)
+\* applyConfiguration for the entries applied in this step, in order.  Every node switches to a
+\* configuration when it applies it (which can move a leader back to an older configuration
+\* than the one it appended); a leader that is no longer a member steps down (not persisted).
+RECURSIVE ApplyCfgs(_, _, _)
+ApplyCfgs(s, i, hi) ==
+  IF i > hi THEN s
+  ELSE IF ~HasIdx(s.log, i) \/ At(s.log, i).k # "cfg" THEN ApplyCfgs(s, i + 1, hi)
+  ELSE IF s.ccfg.idx # 0 /\ i <= s.ccfg.idx THEN ApplyCfgs([s EXCEPT !.cfut = IF s.cfut = i THEN 0 ELSE s.cfut], i + 1, hi)
+  ELSE LET e == At(s.log, i)
+           nc == Cfg(i, e.v.v, e.v.n)
+           out == s.role = "L" /\ ~(\E m \in nc.v \cup nc.n : TRUE /\ m = s.me)
+           s1 == [s EXCEPT !.cfg = nc, !.ccfg = nc, !.cfut = IF s.cfut = i THEN 0 ELSE s.cfut]
+           s2 == IF out THEN [s1 EXCEPT !.role = "F", !.pend = <<>>, !.reads = {}, !.svq = TRUE] ELSE s1 IN
+       ApplyCfgs(s2, i + 1, hi)
+
 Fin(old, new) ==
-  LET s1 == [new EXCEPT !.pend = [i \in {j \in DOMAIN new.pend : ~(j > old.commit /\ j <= new.commit /\ HasIdx(new.log, j) /\ At(new.log, j).k = "op")}
-                                   |-> new.pend[i]]]
-      s2 == IF new.commit > old.commit THEN CompactParked(s1) ELSE s1 IN
-  IF s2.commit > old.commit THEN TakeSnapshot(s2) ELSE s2
+  LET s0 == IF new.commit > old.commit THEN ApplyCfgs(new, old.commit + 1, new.commit) ELSE new
+      s1 == [s0 EXCEPT !.pend = [i \in {j \in DOMAIN s0.pend : ~(j > old.commit /\ j <= new.commit /\ HasIdx(new.log, j) /\ At(new.log, j).k = "op")}
+                                   |-> s0.pend[i]]]
+      s2 == IF new.commit > old.commit THEN CompactParked(s1) ELSE s1
+      s3 == IF s2.commit > old.commit THEN TakeSnapshot(s2) ELSE s2 IN
+  [s3 EXCEPT !.reads = s3.reads \ Servable(s3)]
 
 \* bookkeeping shared by all actions that change node n from `old' to `new'
-Observe(n, old, new, el, c, vd, v) ==
+Observe(n, old, new, el, c, vd, ak, v) ==
   LET becameLeader == old.role # "L" /\ new.role = "L"
       el2 == IF becameLeader THEN el \cup {<<new.term, n>>} ELSE el
       cast == new.vote # Nil /\ new.role # "D" /\ (new.vote # old.vote \/ new.term # old.term)
       vd2 == IF cast THEN vd \cup {<<n, new.term, new.vote>>} ELSE vd
+      ackNow == {i \in NewlyCommitted(old, new) : i \in DOMAIN new.pend /\ At(new.log, i).k = "op"}
+      ak2 == IF ackNow = {} THEN ak ELSE Max(ak, CHOOSE i \in ackNow : \A j \in ackNow : j <= i)
       v2 == v \cup (IF CommitViolation(c, old, new) THEN {"StateMachineSafety"} ELSE {})
               \cup (IF CommitViolationOp(c, old, new) THEN {"StateMachineSafetyOp"} ELSE {})
               \cup (IF becameLeader /\ CompletenessViolation(c, old) THEN {"LeaderCompleteness"} ELSE {})
@@ -349,17 +399,20 @@ Observe(n, old, new, el, c, vd, v) ==
               \cup (IF \E i \in NewlyCommitted(old, new) : i \in DOMAIN new.pend /\ At(new.log, i).k = "op"
                                                             /\ At(new.log, i).v # new.pend[i]
                      THEN {"FutureTruth"} ELSE {})
-  IN [el |-> el2, c |-> CommNext(c, old, new), vd |-> vd2, v |-> v2]
+              \* C05: a linearizable read is served from a state that lacks an operation acknowledged
+              \* before the read was invoked
+              \cup (IF \E r \in Servable(new) : new.commit < r.must THEN {"StaleRead"} ELSE {})
+  IN [el |-> el2, c |-> CommNext(c, old, new), vd |-> vd2, ak |-> ak2, v |-> v2]
 
 \* apply the observation of one or two changed nodes to the history variables
 Hist1(n, new) ==
-  LET o == Observe(n, ns[n], new, elected, comm, voted, viol) IN
-  /\ elected' = o.el /\ comm' = o.c /\ voted' = o.vd /\ viol' = o.v
+  LET o == Observe(n, ns[n], new, elected, comm, voted, acked, viol) IN
+  /\ elected' = o.el /\ comm' = o.c /\ voted' = o.vd /\ acked' = o.ak /\ viol' = o.v
 
 Hist2(n, newn, p, newp) ==
-  LET o1 == Observe(p, ns[p], newp, elected, comm, voted, viol)
-      o2 == Observe(n, ns[n], newn, o1.el, o1.c, o1.vd, o1.v) IN
-  /\ elected' = o2.el /\ comm' = o2.c /\ voted' = o2.vd /\ viol' = o2.v
+  LET o1 == Observe(p, ns[p], newp, elected, comm, voted, acked, viol)
+      o2 == Observe(n, ns[n], newn, o1.el, o1.c, o1.vd, o1.ak, o1.v) IN
+  /\ elected' = o2.el /\ comm' = o2.c /\ voted' = o2.vd /\ acked' = o2.ak /\ viol' = o2.v
 
 Spend(what) == budget[what] > 0 /\ budget' = [budget EXCEPT ![what] = budget[what] - 1]
 
@@ -371,6 +424,7 @@ Up(n) == ns[n].role # "D"
 \* election(): the whole critical section run by the election loop when the timer fires
 TimerFire(n) ==
   LET s == ns[n] IN
+  /\ "rv" \notin AsyncKinds
   /\ s.role \in {"F", "P", "C"}
   /\ IsVoter(s, n) \/ "NonVoterCampaigns" \in W
   /\ s.term < MaxTerm
@@ -458,7 +512,7 @@ ArmSnapshot(n) ==
   /\ Up(n) /\ ~ns[n].arm /\ MaxSnap > 0
   /\ Spend("snap")
   /\ ns' = [ns EXCEPT ![n].arm = TRUE]
-  /\ UNCHANGED <<net, elected, comm, voted, viol>>
+  /\ UNCHANGED <<net, elected, comm, voted, acked, viol>>
 
 \* one InstallSnapshot RPC, synchronously (sent instead of AppendEntries when the follower's
 \* next index is at or below the leader's boundary)
@@ -506,96 +560,164 @@ Crash(n) ==
                                 !.log = s.log, !.snap = s.snap, !.li = s.snap, !.commit = s.snap.idx] IN
      /\ ns' = [ns EXCEPT ![n] = s1]
      \* C08: the term a node has shown to others never decreases, not even across a crash
-     /\ elected' = elected /\ comm' = comm /\ voted' = voted
+     /\ elected' = elected /\ comm' = comm /\ voted' = voted /\ acked' = acked
      /\ viol' = viol \cup (IF dt < s.term THEN {"TermMonotone"} ELSE {})
   /\ UNCHANGED net
 
 Restart(n) ==
   /\ ns[n].role = "D"
   /\ ns' = [ns EXCEPT ![n].role = "F"]
-  /\ UNCHANGED <<net, budget, elected, comm, voted, viol>>
+  /\ UNCHANGED <<net, budget, elected, comm, voted, acked, viol>>
 
 -----------------------------------------------------------------------------
-(* Asynchronous grain for the kinds in AsyncKinds: requests and replies are separate steps, *)
-(* so a reply can be processed long after the state it was built from is gone.              *)
+(* Asynchronous grain for the kinds in AsyncKinds: requests and replies travel through      *)
+(* `net', so a reply can be processed long after the state it was built from is gone.       *)
+(* Every round of requests (one sendRequestVoteToPeers / sendAppendEntriesToPeers call)     *)
+(* has its own response counter, as in the code; all requests of a round are built in the   *)
+(* step that starts it (DESIGN.md 3.7, AtomicSpawn).                                        *)
 
-Msgs == net
-InFlight(k) == Cardinality({m \in net : m.kind = k})
+Get(f, k, d) == IF k \in DOMAIN f THEN f[k] ELSE d
+PutF(f, k, v) == [x \in DOMAIN f \cup {k} |-> IF x = k THEN v ELSE f[x]]
 
-RVSend(n, p) ==
+\* requests of a new vote round of node n in state s (s already is P or C for this round)
+VoteRound(s, n) ==
+  LET k == s.vr + 1
+      s1 == [s EXCEPT !.vr = k, !.cnt = PutF(s.cnt, <<"v", k>>, 1)]
+      ms == {[RVRequest(s1, n) EXCEPT !.kind = "rvq"] @@ [to |-> p, round |-> k] : p \in VotersOf(s1) \ {n}} IN
+  [s |-> s1, ms |-> IF IsVoter(s1, n) THEN ms ELSE {}]
+
+\* requests of a new replication round of leader n
+ReplRound(s, n) ==
+  LET k == s.hbr + 1
+      s1 == [s EXCEPT !.hbr = k, !.cnt = PutF(s.cnt, <<"h", k>>, 1)]
+      ms == {[AERequest(s1, n, p) EXCEPT !.kind = "aeq"] @@ [to |-> p, round |-> k] :
+               p \in {q \in MembersOf(s1) \ {n} : s1.next[q] > s1.li.idx}} IN
+  [s |-> s1, ms |-> ms]
+
+\* election(): as TimerFire, plus the requests of the round it starts
+TimerFireA(n) ==
   LET s == ns[n] IN
   /\ "rv" \in AsyncKinds
-  /\ n # p /\ Up(n)
-  /\ s.role \in {"P", "C"} /\ s.votes > 0 /\ (s.role = "P") = s.pre
-  /\ p \in VotersOf(s) /\ p \notin s.asked /\ IsVoter(s, n)
-  /\ Cardinality(net) < MaxNet
-  /\ net' = net \cup {[RVRequest(s, n) EXCEPT !.kind = "rvq"] @@ [to |-> p]}
-  /\ ns' = [ns EXCEPT ![n].asked = s.asked \cup {p}]
-  /\ UNCHANGED <<budget, elected, comm, voted, viol>>
+  /\ s.role \in {"F", "P", "C"} /\ IsVoter(s, n) /\ s.term < MaxTerm
+  /\ Spend("timer")
+  /\ LET s1 == IF s.role = "C" /\ (s.pre \/ "CandidateNoPrevote" \in W) THEN BecomeCandidate(s, n)
+               ELSE [s EXCEPT !.role = "P", !.votes = 1, !.asked = {}, !.pre = TRUE]
+         r == VoteRound(s1, n) IN
+     /\ ~SingleServer(s1, n)                \* single-voter clusters are covered at the synchronous grain
+     /\ Cardinality(net) + Cardinality(r.ms) <= MaxNet
+     /\ ns' = [ns EXCEPT ![n] = r.s]
+     /\ net' = net \cup r.ms
+     /\ Hist1(n, r.s)
 
 RVHandle(m) ==
   /\ m \in net /\ m.kind = "rvq" /\ Up(m.to)
   /\ \E sticky \in IF ns[m.to].term > m.term /\ ~Gen THEN BOOLEAN ELSE {FALSE} :
        LET h == HandleRV(ns[m.to], m, sticky) IN
        /\ ns' = [ns EXCEPT ![m.to] = h.s]
-       /\ net' = (net \ {m}) \cup {[kind |-> "rvr", from |-> m.to, to |-> m.from, req |-> m, reply |-> h.reply]}
+       /\ net' = (net \ {m}) \cup {[kind |-> "rvr", from |-> m.to, to |-> m.from, round |-> m.round, req |-> m, reply |-> h.reply]}
        /\ Hist1(m.to, h.s)
   /\ UNCHANGED budget
 
-\* note: the reply is counted on the round it finds, not the round it was sent in, when the
-\* node is still (or again) in the same role and term -- the code's counters are per round,
-\* which the sync grain cannot see; the async grain keeps the code's stale-term check only.
+\* sendRequestVote after the RPC returned: the vote is counted on the counter of the round the
+\* request belongs to, the role tests look at the node as it is now.  SharedVoteCounter: one
+\* counter per node instead of one per round.
 RVReply(m) ==
   /\ m \in net /\ m.kind = "rvr" /\ Up(m.to)
-  /\ \E stay \in IF ns[m.to].vote \notin {Nil, m.to} /\ ~Gen THEN BOOLEAN ELSE {FALSE} :
-       LET s == ns[m.to]
-           sameRound == s.pre = m.req.pre /\ (IF m.req.pre THEN s.term + 1 ELSE s.term) = m.req.term /\ s.role \in {"P", "C"}
-           c == IF sameRound THEN OnRVReply(s, m.to, m.req, m.reply, stay)
-                ELSE IF m.reply.term > m.req.term /\ ~(s.term > m.req.term) THEN BecomeFollower(s, m.reply.term, "rvr")
-                ELSE s IN
-       /\ ns' = [ns EXCEPT ![m.to] = c]
-       /\ Hist1(m.to, c)
-  /\ net' = net \ {m}
-  /\ UNCHANGED budget
+  /\ LET s == ns[m.to]
+         n == m.to
+         key == IF "SharedVoteCounter" \in W THEN <<"v", s.vr>> ELSE <<"v", m.round>> IN
+     IF s.term > m.req.term /\ "NoStaleVoteReplyCheck" \notin W THEN
+        /\ ns' = ns /\ net' = net \ {m} /\ UNCHANGED <<budget, elected, comm, voted, acked, viol>>
+     ELSE
+       LET c1 == Get(s.cnt, key, 1) + (IF m.reply.ok THEN 1 ELSE 0)
+           s1 == [s EXCEPT !.cnt = PutF(s.cnt, key, c1)] IN
+       IF m.reply.term > m.req.term THEN
+          LET s2 == BecomeFollower(s1, m.reply.term, "rvr") IN
+          /\ ns' = [ns EXCEPT ![n] = Fin(s, s2)] /\ net' = net \ {m} /\ Hist1(n, s2) /\ UNCHANGED budget
+       ELSE IF Quorum(s1, c1) /\ s1.role = "P" THEN
+          \* prevote won: candidate at once (Gen: the contact has lapsed), real round spawned
+          LET s2 == BecomeCandidate(s1, n)
+              r == VoteRound(s2, n) IN
+          /\ s2.term <= MaxTerm
+          /\ Cardinality(net) - 1 + Cardinality(r.ms) <= MaxNet
+          /\ ns' = [ns EXCEPT ![n] = r.s] /\ net' = (net \ {m}) \cup r.ms /\ Hist1(n, r.s) /\ UNCHANGED budget
+       ELSE IF ~m.req.pre /\ Quorum(s1, c1) /\ s1.role = "C" THEN
+          LET s2 == BecomeLeader(s1, n) IN
+          /\ ns' = [ns EXCEPT ![n] = Fin(s, s2)] /\ net' = net \ {m} /\ Hist1(n, s2) /\ UNCHANGED budget
+       ELSE
+          /\ ns' = [ns EXCEPT ![n] = s1] /\ net' = net \ {m} /\ Hist1(n, s1) /\ UNCHANGED budget
 
-AESend(n, p) ==
+\* heartbeat tick of a leader (also stands for the rounds the code starts on submit / commit)
+StartRound(n) ==
   LET s == ns[n] IN
   /\ "ae" \in AsyncKinds
-  /\ n # p /\ Up(n)
-  /\ s.role = "L" /\ p \in MembersOf(s) /\ s.next[p] > s.li.idx
-  /\ Cardinality(net) < MaxNet
+  /\ Up(n) /\ s.role = "L"
   /\ Spend("ae")
-  /\ net' = net \cup {[AERequest(s, n, p) EXCEPT !.kind = "aeq"] @@ [to |-> p]}
-  /\ UNCHANGED <<ns, elected, comm, voted, viol>>
+  /\ LET r == ReplRound(s, n) IN
+     /\ Cardinality(net) + Cardinality(r.ms) <= MaxNet
+     /\ ns' = [ns EXCEPT ![n] = r.s]
+     /\ net' = net \cup r.ms
+  /\ UNCHANGED <<elected, comm, voted, acked, viol>>
 
 AEHandle(m) ==
   /\ m \in net /\ m.kind = "aeq" /\ Up(m.to)
   /\ LET h == HandleAE(ns[m.to], m) IN
      /\ ns' = [ns EXCEPT ![m.to] = Fin(ns[m.to], h.s)]
-     /\ net' = (net \ {m}) \cup {[kind |-> "aer", from |-> m.to, to |-> m.from, req |-> m, reply |-> h.reply]}
+     /\ net' = (net \ {m}) \cup {[kind |-> "aer", from |-> m.to, to |-> m.from, round |-> m.round, req |-> m, reply |-> h.reply]}
      /\ Hist1(m.to, h.s)
   /\ UNCHANGED budget
 
+\* a round that reached its quorum confirms leadership for the reads that may be confirmed by it
+MarkVerified(s, round) ==
+  [s EXCEPT !.svq = TRUE,
+            !.reads = {[r EXCEPT !.ver = r.ver \/ r.vround <= round \/ "ReadAnyRound" \in W] : r \in s.reads}]
+
+\* sendAppendEntries after the RPC returned
 AEReply(m) ==
   /\ m \in net /\ m.kind = "aer" /\ Up(m.to)
-  /\ LET c == OnAEReply(ns[m.to], m.to, m.from, m.req, m.reply) IN
-     /\ ns' = [ns EXCEPT ![m.to] = Fin(ns[m.to], c)]
-     /\ Hist1(m.to, c)
+  /\ LET s == ns[m.to]
+         n == m.to  p == m.from
+         live == p \in MembersOf(s) /\ s.role = "L" /\ (m.req.term = s.term \/ "NoStaleAEReplyCheck" \in W)
+         key == <<"h", m.round>>
+         counts == live /\ m.reply.term <= s.term /\ (IsVoter(s, p) \/ "HBCountsNonVoters" \in W)
+         c1 == Get(s.cnt, key, 1) + 1
+         s1 == IF counts THEN (IF Quorum(s, c1) THEN MarkVerified([s EXCEPT !.cnt = PutF(s.cnt, key, c1)], m.round)
+                               ELSE [s EXCEPT !.cnt = PutF(s.cnt, key, c1)])
+               ELSE s
+         c == OnAEReply(s1, n, p, m.req, m.reply) IN
+     /\ ns' = [ns EXCEPT ![n] = Fin(s, c)]
+     /\ Hist1(n, c)
   /\ net' = net \ {m}
   /\ UNCHANGED budget
 
-\* loss (only meaningful for async kinds; sync kinds lose messages by not exchanging)
+\* submitReadOnlyOperation (linearizable): read index, first round that may confirm it, and a
+\* new round at once unless one started by an earlier read is still unanswered
+ClientRead(n) ==
+  LET s == ns[n] IN
+  /\ "ae" \in AsyncKinds /\ Up(n) /\ s.role = "L"
+  /\ Spend("read")
+  /\ LET ridx == IF CommittedThisTerm(s) \/ "ReadIndexStale" \in W THEN s.commit ELSE LastIdx(s.log)
+         vround == IF ~s.svq /\ "ReadJoinsRoundInFlight" \in W THEN s.rvr ELSE s.hbr + 1
+         rd == [id |-> budget.read, ridx |-> ridx, vround |-> vround, ver |-> "ReadNoQuorum" \in W, must |-> acked]
+         s1 == [s EXCEPT !.reads = s.reads \cup {rd}]
+         r == IF s.svq THEN ReplRound([s1 EXCEPT !.svq = FALSE, !.rvr = s.hbr + 1], n) ELSE [s |-> s1, ms |-> {}] IN
+     /\ Cardinality(net) + Cardinality(r.ms) <= MaxNet
+     /\ ns' = [ns EXCEPT ![n] = Fin(s, r.s)]
+     /\ net' = net \cup r.ms
+     /\ Hist1(n, r.s)
+
+\* loss
 Lose(m) ==
   /\ m \in net
   /\ net' = net \ {m}
-  /\ UNCHANGED <<ns, budget, elected, comm, voted, viol>>
+  /\ UNCHANGED <<ns, budget, elected, comm, voted, acked, viol>>
 
 -----------------------------------------------------------------------------
 Init ==
   /\ ns = [n \in Node |-> InitNode]
   /\ net = {}
-  /\ budget = [timer |-> MaxTimer, ae |-> MaxAE, client |-> MaxClient, crash |-> MaxCrash, half |-> MaxHalf, snap |-> MaxSnap]
-  /\ elected = {} /\ comm = <<>> /\ voted = {} /\ viol = {}
+  /\ budget = [timer |-> MaxTimer, ae |-> MaxAE, client |-> MaxClient, crash |-> MaxCrash, half |-> MaxHalf, snap |-> MaxSnap, read |-> MaxRead]
+  /\ elected = {} /\ comm = <<>> /\ voted = {} /\ acked = 0 /\ viol = {}
 
 Next ==
   \/ \E n \in Node : TimerFire(n)
@@ -603,7 +725,7 @@ Next ==
   \/ \E n \in Node, v \in Value : ClientSubmit(n, v)
   \/ \E n \in Node : Crash(n) \/ Restart(n) \/ ArmSnapshot(n)
   \/ \E n, p \in Node : ISExchange(n, p)
-  \/ \E n, p \in Node : RVSend(n, p) \/ AESend(n, p)
+  \/ \E n \in Node : TimerFireA(n) \/ StartRound(n) \/ ClientRead(n)
   \/ \E m \in net : RVHandle(m) \/ RVReply(m) \/ AEHandle(m) \/ AEReply(m) \/ Lose(m)
 
 Spec == Init /\ [][Next]_vars
@@ -627,6 +749,7 @@ LogMatching ==
 NoViolation == viol = {}
 \* used when looking for attack schedules: a violation an execution of the code can show
 NoOpViolation == "StateMachineSafetyOp" \notin viol
+NoStaleRead == "StaleRead" \notin viol
 
 \* committed entries are on a majority of the voters' durable logs (C04, static membership)
 CommittedDurable ==
